@@ -15,5 +15,10 @@ CLAIMS = {
   "text": "Decides, for every point deserializer in the repository (generic SW/TE defaults, Affine/Projective wrappers, the bls12_381 overrides and their read_* helpers in curves/, test-curves), on every path with validation on: Ok(non-identity point) cannot be returned when the point is outside the subgroup, nor when it is off the curve unless it came from an on-curve constructor, and the tests were applied to the value actually returned; Valid::check for affine points is Ok only when both tests hold; validate/compress flags are passed through or compensated in all ~130 inner (de)serialization calls; Fp decoding goes through the range check and flag extraction. Correctness of is_on_curve / subgroup tests themselves and panic-freedom inside arithmetic are not decided.",
   "note": "Trusted: rustc MIR; the tables of on-curve constructors and pass-through adapters in rules/c10.py. Assumes on-curve constructors solve the curve equation (C03/C11).",
  },
+ "C18": {
+  "technique": "MIR dataflow: mode-flag origin analysis, stream-length taint to allocation sinks, error-arm existence, writer/reader/size call-sequence agreement",
+  "text": "Decides over every CanonicalSerialize/CanonicalDeserialize impl of the workspace, the curve crates and derive-macro output: each of ~370 inner calls receives the caller's compress flag and each of ~130 the validate flag (or Validate::No compensated by check/batch_check on the Yes arm; the four mode-pinning wrappers pass exactly their pinned pair in all three methods); no allocation is sized by a length read from the stream; invalid bool bytes, invalid UTF-8 and length-conversion failures reach an Err arm and no unwrap/expect consumes stream-derived data; for straight-line impls writer, reader and size visit the same element types in the same order. Value equality of round trips and exact byte counts at run time are not decided.",
+  "note": "Trusted: rustc MIR; sink/reader/bound name tables in rules/c18.py. Straight-line restriction: impls with closures/loops are covered by the flag and taint rules only.",
+ },
 }
 NOT_APPLICABLE = {}
